@@ -152,8 +152,9 @@ func cmdCheck(args []string) int {
 	keep := fs.Bool("keep", false, "keep all query files")
 	only := fs.String("o", "", "only obligations whose name contains this")
 	model := fs.Bool("m", false, "print models of failed obligations")
+	lemmas := fs.Bool("lemmas", false, "also prove lemmas")
 	fs.Parse(args)
-	_ = keep
+	KeepQueries = *keep
 	p, err := Load(RepoDir, "./...")
 	if err != nil {
 		fmt.Fprintln(os.Stderr, err)
@@ -177,6 +178,32 @@ func cmdCheck(args []string) int {
 		}
 	}
 	bad := 0
+	if *lemmas || *fn == "" {
+		var lobls []*Obligation
+		for _, ax := range cs.Axioms {
+			if !ax.Lemma {
+				continue
+			}
+			lv := w.LemmaVC(ax)
+			if len(lv.Errors) > 0 {
+				fmt.Printf("lemma %-44s OUT-OF-REACH %v\n", ax.Name, lv.Errors)
+				bad++
+				continue
+			}
+			lobls = append(lobls, lv.Obls...)
+		}
+		lobls = append(lobls, w.BVLemmas()...)
+		res := DischargeAll(lobls, *timeout, false, runtime.NumCPU())
+		for _, r := range res {
+			if r.Status != "unsat" || *verbose {
+				fmt.Printf("    %-8s %-60s %5.2fs %s [%s]\n", r.Status, r.Obl.Name, r.Time, r.Obl.Note, strings.Join(r.Tried, " "))
+			}
+			if r.Status != "unsat" {
+				bad++
+			}
+		}
+		fmt.Printf("%-50s %d obligations\n", "lemmas", len(res))
+	}
 	for _, k := range keys {
 		fv, err := w.Generate(k)
 		if err != nil {
